@@ -227,11 +227,53 @@ def r14c(ctx, P):
                "%s:%s" % (f.file, f.line))
 
 
+def r14d(ctx, P):
+    rid = "R14.d"
+    from sa.rules.C13 import _is_error_exit_test
+    ctx.rule(rid, "GUARD (only deleted documents are left out): in Index::compact (and its closures) the re-ingestion of a document — the "
+                  "SegmentReader::get_doc call that feeds the new segment — is controlled by nothing but the iteration over segments "
+                  "and ordinals, error exits, and the `is_deleted` test (R04.c requires that test; this is its converse). Any other "
+                  "condition under which a live document is skipped changes which documents are live after compaction")
+    comp = P.fn(N.INDEX + "::compact")
+    if not ctx.anchor(rid, comp, "Index::compact"):
+        return
+    n = 0
+    for g in [comp] + P.closures_of(comp):
+        sl = Slice(g)
+        for b, t in g.calls():
+            if not callee_of(t).endswith("SegmentReader::get_doc"):
+                continue
+            n += 1
+            ctx.saw(g)
+            extra = []
+            for (a, succ) in g.control_deps_transitive(b):
+                ta = g.blocks[a]["term"]
+                if ta["k"] != "switch":
+                    continue
+                if any("ForLoop" in m or "WhileLoop" in m for m in (ta.get("macros") or [])) or _is_error_exit_test(g, a) and False:
+                    continue
+                srcs = sl.sources(ta["on"])
+                calls = [callee_of(x[2]) for x in srcs if x[0] == "call"]
+                if calls and all(c.endswith(("SegmentReader::is_deleted", "Range<A> as core::iter::traits::iterator::Iterator>::next",
+                                             "Iterator>::next", "::next")) for c in calls):
+                    continue
+                if any("QuestionMark" in m for m in (ta.get("macros") or [])):
+                    continue
+                extra.append((Site(g, a), calls))
+            ctx.ob(rid, "%s:compact:only-deleted-documents-skipped" % rid, not extra,
+                   "a document is re-ingested unless is_deleted says otherwise" if not extra else
+                   "whether the document is re-ingested at %s also depends on the test at %s (%s): a live document can be left out of "
+                   "the compacted segment" % (Site(g, b).loc(), extra[0][0].loc(), ", ".join(c.rsplit("::", 1)[-1] for c in extra[0][1]) or "a comparison"),
+                   Site(g, b).loc())
+    ctx.floor(rid, n, 1, "SegmentReader::get_doc call in the compaction stream")
+
+
 def run(ctx, progs):
     P = progs.get("default")
     r14a(ctx, P)
     r14b(ctx, P)
     r14c(ctx, P)
+    r14d(ctx, P)
     if ctx.tier == "thorough":
         ctx.config = "features"
         Pf = progs.get("features")
